@@ -2,7 +2,7 @@
    Nothing but statements, `exact`, Print Assumptions (+ examples). *)
 From Coq Require Import List Bool Arith ZArith.
 From FwdLib Require Import Bytes.
-From G12 Require Import Tables Errors Exchange Conntrack Check ExchangeProofs ConntrackProofs PromProofs Obligations.
+From G12 Require Import Tables Errors Exchange Conntrack Check ExchangeProofs ConntrackProofs PromProofs Lift Obligations.
 Import ListNotations.
 
 (* Every request read while the proxy is not shutting down is reported complete
@@ -16,12 +16,12 @@ Theorem T13_exactly_once : forall v, active v = true ->
   count is_wrote_transport (run v) = 0%nat /\
   (length (head_srcs (run v)) <= 1)%nat /\
   exists s, wrote_srcs (run v) = [s] /\ forall s', In s' (head_srcs (run v)) -> s' = s.
-Proof. exact (fun v => eq_ind_r (fun fl => active v = true -> _ (run_with fl v)) (exactly_once_good v) ob_flags). Qed.
+Proof. exact (exactly_once ob_flags). Qed.
 Print Assumptions T13_exactly_once.
 
 (* No completion report without a request (read error, or shutdown right after reading). *)
 Theorem T13_nothing_without_request : forall v, active v = false -> count is_wrote (run v) = 0%nat.
-Proof. exact (fun v => eq_ind_r (fun fl => active v = false -> count is_wrote (run_with fl v) = 0%nat) (nothing_without_request_good v) ob_flags). Qed.
+Proof. exact (nothing_without_request ob_flags). Qed.
 Print Assumptions T13_nothing_without_request.
 
 (* The three shapes of the unrepaired source each break exactly-once: kept as witnesses. *)
@@ -50,18 +50,18 @@ Print Assumptions T13_total_plus_one.
 Theorem T13_close_once : forall n ls s,
   crun close_uses_once (cinit n) ls = Some s -> cfinal s ->
   fired s = (if Nat.eqb n 0 then 0 else 1)%nat /\ under s = n /\ nd s = n.
-Proof. exact (fun n ls s => eq_ind_r (fun o => crun o (cinit n) ls = Some s -> cfinal s -> _) (close_once n ls s) ob_close_uses_once). Qed.
+Proof. exact (close_once_tab ob_close_uses_once). Qed.
 Print Assumptions T13_close_once.
 
 (* ... at no point of any schedule has the callback run twice ... *)
 Theorem T13_close_never_twice : forall n ls s, crun close_uses_once (cinit n) ls = Some s -> (fired s <= 1)%nat.
-Proof. exact (fun n ls s => eq_ind_r (fun o => crun o (cinit n) ls = Some s -> (fired s <= 1)%nat) (fired_at_most_once n ls s) ob_close_uses_once). Qed.
+Proof. exact (close_never_twice_tab ob_close_uses_once). Qed.
 Print Assumptions T13_close_never_twice.
 
 (* ... and no schedule can get stuck before every caller has returned. *)
 Theorem T13_close_progress : forall n ls s,
   crun close_uses_once (cinit n) ls = Some s -> ~ cfinal s -> exists l s', cstep close_uses_once s l = Some s'.
-Proof. exact (fun n ls s => eq_ind_r (fun o => crun o (cinit n) ls = Some s -> ~ cfinal s -> exists l s', cstep o s l = Some s') (progress n ls s) ob_close_uses_once). Qed.
+Proof. exact (close_progress_tab ob_close_uses_once). Qed.
 Print Assumptions T13_close_progress.
 
 (* Without sync.Once two callers run the callback twice (why the obligation is needed). *)
@@ -74,22 +74,10 @@ Print Assumptions T13_close_once_refuted_without_once.
 Theorem T13_active_zero : forall (conns : list (nat * list clabel)) fires,
   Forall2 (fun c k => (fst c >= 1)%nat /\ conn_run (fst c) (snd c) = Some k) conns fires ->
   active_after fires = 0%Z.
-Proof.
-  exact (fun conns fires H => active_zero fires
-    (fun k Hk => let fix go cs fs (F : Forall2 _ cs fs) {struct F} : In k fs -> k = 1%nat :=
-        match F in Forall2 _ cs' fs' return In k fs' -> k = 1%nat with
-        | Forall2_nil _ => fun I => match I with end
-        | Forall2_cons c k' (conj C R) F' => fun I =>
-            match I with
-            | or_introl E => eq_ind k' (fun z => z = 1%nat) (conn_run_one (fst c) (snd c) k' C R) k E
-            | or_intror I' => go _ _ F' I'
-            end
-        end in go conns fires H Hk)).
-Qed.
+Proof. exact active_zero_conns. Qed.
 Print Assumptions T13_active_zero.
 
-(* The run-time oracle's pairing test implies what it is used for: a trace
-   accepted by `paired None` reports every request exactly once. *)
+(* Non-vacuity: a concrete exchange (CONNECT tunnel) and a concrete 3-way concurrent close. *)
 Example T13_example :
   let v := Build_val RdOk false true false false RtOk St2xx false false CnOk WOk false false AfPlain in
   active v = true /\
